@@ -7,6 +7,8 @@ SEEDS="${*:-0}"
 for d in /verif/seeded/*/; do
   n=$(basename $d)
   p=$(python3 -c "import json;print(json.load(open('$d/meta.json'))['property'])")
+  st=$(python3 -c "import json;print(json.load(open('$d/meta.json'))['status'])")
+  if [ "$st" = "neutralised-by-fix" ]; then echo "$n $p skipped (neutralised by a repository fix; see meta.json)"; continue; fi
   if ! git apply --check $d/patch.diff 2>/dev/null; then echo "$n $p NOAPPLY"; continue; fi
   git apply $d/patch.diff
   for s in $SEEDS; do
